@@ -496,3 +496,14 @@ pub fn verif_lookup_ll_code(code: u8) -> (u32, u8) {
 pub fn verif_lookup_ml_code(code: u8) -> (u32, u8) {
     lookup_ml_code(code)
 }
+
+/// Verification hook: the predefined distributions and accuracy logs the decoder uses (LL, ML, OF).
+#[cfg(killingspark_zstd_rs_verif)]
+#[allow(clippy::type_complexity)]
+pub fn verif_default_distributions() -> ((u8, &'static [i32]), (u8, &'static [i32]), (u8, &'static [i32])) {
+    (
+        (LL_DEFAULT_ACC_LOG, &LITERALS_LENGTH_DEFAULT_DISTRIBUTION[..]),
+        (ML_DEFAULT_ACC_LOG, &MATCH_LENGTH_DEFAULT_DISTRIBUTION[..]),
+        (OF_DEFAULT_ACC_LOG, &OFFSET_DEFAULT_DISTRIBUTION[..]),
+    )
+}
